@@ -1,3 +1,4 @@
+import GoLevel.Gen.Consts
 /-!
 # Blocking resources of `leveldb.DB` and the control flow of every public call over them (property C09)
 
@@ -10,8 +11,10 @@ Threads are client goroutines, each performing one public call; a thread is its 
 Every storage action inside a call or a compaction has an `ok` and a `fail` outcome; the steps with a
 `fail` outcome are the *fault* steps (`Step cfg true`), all other steps are `Step cfg false`.
 
-The code has lock leaks; the model follows the code and is parametrised by `Cfg` with one flag per leak —
-`Cfg.asIs` (all `false`) is the code as it is, `Cfg.repaired` (all `true`) the code with every leak closed:
+Four return paths could leave a resource held; the model is parametrised by `Cfg` with one flag per path
+(`true` = the path releases).  `Cfg.asIs` (all `false`) is the code as it was when the model was written,
+`Cfg.repaired` (all `true`) has every leak closed, `codeCfg` takes the four flags from the regenerated
+`Gen/Consts.lean`, i.e. from the Go source as it is now (the first three were fixed on 2026-09-25):
 
 * `commitUnlocksOnError` — `Transaction.Commit` returns with `compCommitLk` held after three failed
   `s.commit` attempts (`db_transaction.go`, `if cerr != nil { return cerr }` after the retry loop);
@@ -21,7 +24,7 @@ The code has lock leaks; the model follows the code and is parametrised by `Cfg`
   `tr.Discard()`: the transaction (and the token it owns) is orphaned;
 * `setReadOnlyReleasesOnClose` — `SetReadOnly` takes the token, sets `compWriteLocking`, and if its second
   `select` then takes the `closeC` arm it returns `ErrClosed` with the token still in `writeLockC`;
-  `compactionError` releases it on `closeC` only from its `hasperr` loop.  (Found while modelling.)
+  `compactionError` releases it on `closeC` only from its `hasperr` loop.  (Found while modelling; open.)
 
 Abstractions: the write-merge protocol is C10 (here a `Put` is a non-merging writer); `tcompPauseC` is not
 modelled; a compaction goroutine works only on waited commands (`compTriggerWait` / `compTriggerRange`);
@@ -40,6 +43,17 @@ deriving DecidableEq, Repr
 
 def Cfg.asIs : Cfg := ⟨false, false, false, false⟩
 def Cfg.repaired : Cfg := ⟨true, true, true, true⟩
+
+/-- the configuration of the Go source as it is now: the four facts are read off the Go AST on every run
+(`Gen/Consts.lean` is regenerated) -/
+def codeCfg : Cfg :=
+  ⟨Gen.lkCommitUnlocksOnError, Gen.lkOpenTxReleasesOnError, Gen.lkLargeBatchDiscardsOnCommitError,
+   Gen.lkSetReadOnlyReleasesOnClose⟩
+
+/-- the three leaks of `Commit`, `OpenTransaction` and the large-batch `Write` are closed -/
+def Fixed3 (cfg : Cfg) : Prop :=
+  cfg.commitUnlocksOnError = true ∧ cfg.openTxReleasesOnError = true ∧
+  cfg.largeBatchDiscardsOnCommitError = true
 
 /-- call sites of `compTriggerWait` / `compTriggerRange` -/
 inductive Site
@@ -110,6 +124,8 @@ structure St where
   mc : Bg := .idle
   tc : Bg := .idle
   eh : Eh := .noerr
+  /-- the client program may call `SetReadOnly` (never changed by a step) -/
+  sr : Bool := true
 deriving DecidableEq, Repr
 
 def St.bg (s : St) (b : Bool) : Bg := if b then s.tc else s.mc
@@ -248,7 +264,7 @@ inductive Step (cfg : Cfg) : Bool → St → St → Prop
       Step cfg false s { s with ws := s.ws.set i (.dcLockTr false) }
   | startCR (s : St) (i : Nat) (hi : s.ws[i]? = some .idle) :
       Step cfg false s { s with ws := s.ws.set i .crSel }
-  | startSR (s : St) (i : Nat) (hi : s.ws[i]? = some .idle) :
+  | startSR (s : St) (i : Nat) (hi : s.ws[i]? = some .idle) (ha : s.sr = true) :
       Step cfg false s { s with ws := s.ws.set i .srSel }
   /-- `Close`: `setClosed`, `close(db.closeC)`; a second `Close` returns `ErrClosed` -/
   | startClose (s : St) (i : Nat) (hi : s.ws[i]? = some .idle) :
@@ -301,7 +317,7 @@ inductive Step (cfg : Cfg) : Bool → St → St → Prop
       Step cfg false s { s with ws := s.ws.set i (.otxDone lg) }
   | otxWaitComp (s : St) (i : Nat) (lg : Bool) (hi : s.ws[i]? = some (.otxWaitComp lg)) :
       Step cfg false s { s with ws := s.ws.set i (.cwSend true .otxWaitT lg) }
-  /-- `return nil, err` after `rotateMem` / `waitCompaction` failed — THE LEAK: no `<-db.writeLockC` -/
+  /-- `return nil, err` after `rotateMem` / `waitCompaction` failed — the leak (flag false): no `<-db.writeLockC` -/
   | otxFail (s : St) (i : Nat) (lg : Bool) (hi : s.ws[i]? = some (.otxFail lg)) :
       Step cfg false s { s with ws := s.ws.set i (.ret false),
                                 tok := if cfg.openTxReleasesOnError then false else s.tok }
@@ -456,6 +472,17 @@ inductive StepsNF (cfg : Cfg) : St → St → Prop
 def init (n : Nat) : St := { ws := List.replicate n .idle }
 
 def Reachable (cfg : Cfg) (s : St) : Prop := ∃ n, Steps cfg (init n) s
+
+/-- initial states of client programs that never call `SetReadOnly` -/
+def initNoSR (n : Nat) : St := { ws := List.replicate n .idle, sr := false }
+
+/-- reachable in a run in which no thread executes `SetReadOnly` -/
+def ReachableNoSR (cfg : Cfg) (s : St) : Prop := ∃ n, Steps cfg (initNoSR n) s
+
+def srAllW : Pc → Nat | .srSel | .srSet => 1 | _ => 0
+
+/-- no thread is inside `SetReadOnly`, and none will be -/
+def NoSR (s : St) : Prop := s.sr = false ∧ tot srAllW s.ws = 0
 
 def measure (s : St) : Nat :=
   tot wt s.ws + bgWt s.mc + bgWt s.tc + ehWt s.eh + (if s.ehTok then 0 else 1)
